@@ -698,9 +698,10 @@ func (in *Inst) locate(mk string) string {
 }
 
 type container struct {
-	class string // mem | imm | t | ing
-	level int    // -1 for memtables
-	vers  []uint64
+	class    string // mem | imm | t | ing
+	level    int    // -1 for memtables
+	vers     []uint64
+	min, max string // first / last "cf/key" of the container (dump order = key order)
 }
 
 // layoutSig (RichSig) renders where the versions of mk live, in point-lookup order, and
@@ -713,7 +714,9 @@ type container struct {
 // L0 as a whole (newest table first), then each level as a whole (ingest tables, then main
 // tables). step = class of the operation after which the failure showed; merges = the
 // table-merging compaction kinds (l0-l0, ingest-keep, ingest-drain) applied earlier on the path
-// (their outputs get fresh, higher file ids than younger flushed tables).
+// (their outputs get fresh, higher file ids than younger flushed tables); overlap = levels >= 1
+// whose main tables have overlapping key ranges (a broken level invariant: point lookups binary
+// search one table per level, the level iterator concatenates them).
 // mech=first-hit-unit-lacks-newest-version: the first unit holding any version <= pv does not
 // hold the model's answer (a newer container holds only older versions: out-of-order version
 // writes); mech=tie:<classes>: several containers of that unit hold the wanted version and the
@@ -747,6 +750,15 @@ func (in *Inst) layoutSig(mk string, pv uint64, lookup bool) string {
 			}
 			cs = append(cs, cur)
 			continue
+		}
+		if cur != nil && strings.HasPrefix(line, "  ") {
+			if i := strings.LastIndex(line, "\"@"); i > 0 {
+				uk := line[2 : i+1]
+				if cur.min == "" {
+					cur.min = uk
+				}
+				cur.max = uk
+			}
 		}
 		if cur != nil && strings.HasPrefix(line, needle) {
 			rest := line[len(needle):]
@@ -883,6 +895,27 @@ func (in *Inst) layoutSig(mk string, pv uint64, lookup bool) string {
 	case mech == "":
 		mech = "missing-everywhere"
 	}
+	// broken level invariant: two MAIN tables of one level (>= 1) with overlapping key ranges
+	overlap := "-"
+	var ovl []string
+	for l := 1; l <= maxLevel; l++ {
+		var main []*container
+		for _, c := range levels[l] {
+			if c.class == "t" && c.min != "" {
+				main = append(main, c)
+			}
+		}
+		sort.SliceStable(main, func(i, j int) bool { return main[i].min < main[j].min })
+		for i := 1; i < len(main); i++ {
+			if main[i].min <= main[i-1].max {
+				ovl = append(ovl, fmt.Sprintf("L%d", l))
+				break
+			}
+		}
+	}
+	if len(ovl) > 0 {
+		overlap = strings.Join(ovl, ",")
+	}
 	merges := "-"
 	if len(in.merges) > 0 {
 		var ms []string
@@ -892,7 +925,7 @@ func (in *Inst) layoutSig(mk string, pv uint64, lookup bool) string {
 		sort.Strings(ms)
 		merges = strings.Join(ms, ",")
 	}
-	return fmt.Sprintf("step=%s merges=%s probe=%s want=%s mech=%s layout=%s", in.lastOp, merges, verName(pv), want, mech, strings.Join(us, "|"))
+	return fmt.Sprintf("step=%s merges=%s overlap=%s probe=%s want=%s mech=%s layout=%s", in.lastOp, merges, overlap, verName(pv), want, mech, strings.Join(us, "|"))
 }
 
 func (in *Inst) Key() string {
